@@ -886,6 +886,11 @@ class Renderer:
   def make_attach(self, body, Fa):
     att = self.model['attach']
     api = self.draw(st.booleans()) or bool(att['suffix'])
+    if 'fuse' in self.kinds:
+      # known finding 'attach-shallow-fusestatic-use-after-free': mjs_attach by reference + fusestatic frees a body that
+      # the child spec still owns (process dies on mj_deleteSpec); rewrite_case never combines a suffix with fuse
+      api = False
+      self.stats.add('attach:api-excluded-with-fuse(known-finding)')
     T = self.local(Fa, body)
     G = self.draw_pose() if self.draw(st.booleans()) else IDENT
     Tc = compose(inverse(G), T)             # pose of the body inside the child model
@@ -1328,6 +1333,8 @@ def rewrite_case(draw, max_bodies=5, only=None, noncumulative=False, replicate=N
   nk = draw(st.sampled_from([1, 1, 1, 2, 2, 3, 4]))
   # the seed rotates the choice so that Hypothesis' preference for small integers does not favour the first kinds
   kinds = sorted(set(avail[(draw(st.integers(0, len(avail) - 1)) + seed) % len(avail)] for _ in range(nk)))
+  if 'attach' in kinds and 'fuse' in kinds and model['attach']['suffix']:
+    kinds.remove('fuse')          # a suffix needs the API route, which is excluded together with fuse (see make_attach)
   plain = Renderer(None).render(model)
   rw = Renderer(draw, kinds, noncumulative=noncumulative)
   case = dict(kinds=kinds, seed=seed, plain=plain, rw=None, child=None, alt=None, stats=[], skip=None)
